@@ -30,6 +30,24 @@ CHECKS = {
              'insertion sort by str) but theorems are stated up to permutation.',
         technique='Lean 4 proof by induction over connection / patch lists and loop invariants + differential correspondence',
         design='6/C13'),
+    'C12': dict(
+        text='Lean 4 theorems over ALL histories of the memoisation model (Model/Memo.lean: a table keyed by what ==/hash read, '
+             'clear_cache(), cache off): memo_transparent (a function determined by the key is returned exactly, after any '
+             'interleaving of calls of any functions, clears and cache switches), memo_leak / memo_transparent_iff (the criterion '
+             'is exact), cache_off_transparent, leaks_complete / no_leak_transparent (an identity table without "read but not '
+             'compared" attribute makes every field-parametric entry point transparent), identity_table_ok (decided by the kernel '
+             'on Gen/Identity.lean, REGENERATED from the live classes on every run: the table leaks exactly in the rows behind the '
+             'open findings), canon_perm / canon_iteration_order (order-of-supply and hash-seed independence of every sort-a-set-by-'
+             'str site), readonly_history_invisible / writer_is_visible (input immutability). Tied to the code by a correspondence of '
+             'the memo model with the real @cacheit on TerminalExpr.eval and by a differential oracle (fresh interpreter states, '
+             '5/40 PYTHONHASHSEED values, cache on / cleared / off, permuted supplies, input snapshots).',
+        note='Partial in one named respect: the reads column of the identity table, and that sympde entry points are functions of '
+             'the listed attributes only, are learnt by differential execution, not derived from the source. History / seed / cache '
+             'independence of the real code is observed on 12 recipes, not proved. Open findings: domains (and spaces, functions) '
+             'and differential forms are identified by name, so cached results leak between same-named objects of different '
+             'dimension / degree (name-reuse:domain, name-reuse:form).',
+        technique='Lean 4 proof (invariant of the memo table over arbitrary histories, decided generated table) + translator by execution + differential execution in forked interpreters',
+        design='6/C12'),
     'C14': dict(
         text='Lean 4 theorems over ALL argument lists of the Union model (Model/Union.lean: None filtering, type and dimension '
              'checks, flattening, set + sort by str, degenerate cases; complement; render; iteration as a world of independent '
@@ -212,6 +230,40 @@ CHECKS['C11'] = dict(
     note='Trusted: Lean kernel; that lowering preserves meaning is C01/C02; LogicalExpr of a Norm is covered by C03/C04.',
     technique='Lean 4 proof (classical semantics) + differential correspondence',
     design='6/C11')
+
+CHECKS['C06'] = dict(
+    text='Lean 4 theorems on the model of the form branch of TerminalExpr.eval and of _to_matrix_form (Model/Forms.lean: an '
+         'integrand is a list of monomials tagged with the scalar test / trial component they contain, a form a list of '
+         'integrals over lists of regions): for every bilinear integrand, entry (i,j) computed by zeroing the other '
+         'components is exactly the set of monomials coupling test i with trial j (extract_eq_block), a monomial sits in at '
+         'most one entry (blocks_disjoint) and in at least one (blocks_cover), and all entries together contain every '
+         'monomial exactly as often as the integrand (blocks_recombine, multiset equality for any number of components); '
+         'the same for linear forms; the integrands accumulated for a region are exactly those of the integrals whose '
+         'domain contains it (group_spec), one kernel per region that occurs, none invented or listed twice '
+         '(kernels_regions); a vanishing integrand gives empty entries (zero_form); nonlinear_term_duplicated shows that '
+         'bilinearity is needed. Tie: random forms over scalar / vector / product spaces with domain, boundary and union '
+         'integrals on one- and two-patch domains; the monomials of the real lowered region integrands are tagged and sent '
+         'to the model, whose blocks are compared entry by entry with the real kernels; the oracle checks targets, shape, '
+         'recombination and purity on the real kernels.',
+    note='Trusted: Lean kernel; sympy expand and the tagging of monomials in the harness; bilinearity (C08) is a hypothesis.',
+    technique='Lean 4 proof (list / multiset partition by tags) + differential correspondence on tagged monomials',
+    design='6/C06')
+
+CHECKS['C07'] = dict(
+    text='Lean 4 theorems (Props/C07.lean, on Model/Forms.lean with the two sides of the interface as index set): for every '
+         'restricted bilinear integrand the four pieces (trial side, test side) contain every monomial exactly as often as '
+         'the integrand (split_conservative), piece (s,t) contains only monomials with trial on side s and test on side t '
+         '(pieces_pure, piece_of_mono), linear forms split into the two side pieces (split_linear), the reversal of the '
+         'normal on the plus side is an involution (normal_reversal_involutive). Tie: random DG-type interface forms (jump, '
+         'minus/plus, normal vector, constants, restricted coefficients; scalar and vector; 2D/3D): the set of non-empty '
+         'pieces predicted by the model from the tagged monomials of the jump-expanded integrand is compared with the '
+         'kernels the real lowering returns; the oracle instantiates the two sides with independent concrete fields and '
+         'checks that the real pieces (same-side pieces read on their side, plus-side normal reversed) add up to the '
+         'integrand.',
+    note='Trusted: Lean kernel; two-sided instantiation semantics (restrictions are ring homomorphisms, jump = minus - plus); '
+         'Dn and avg are outside the generated fragment (stated in the evidence).',
+    technique='Lean 4 proof (partition by side tags) + differential correspondence + two-sided numeric oracle',
+    design='6/C07')
 
 NOT_YET = 'check not built yet in this round (design in DESIGN.md section 6); will be claimed when its model, theorems and correspondence exist'
 
